@@ -155,6 +155,9 @@ func Near(a, b, abs, rel float64) bool {
 
 func AssertNear(a, b, abs, rel float64, label string) { Assert(Near(a, b, abs, rel), label) }
 
+// Hunt: like Assert, but under the engine only a counterexample counts (bug hunting).
+func Hunt(c bool, label string) { Assert(c, label) }
+
 // HuntNear: like AssertNear, but under the engine only a counterexample counts (bug hunting).
 func HuntNear(a, b, abs, rel float64, label string) { Assert(Near(a, b, abs, rel), label) }
 
